@@ -246,6 +246,22 @@ def rule_sym(chk, fft):
         if any(x.get("k") == "Continue" for x in F.walk(n["then"])):
             vs = {v["id"] for v in F.exprs(n["cond"], "Var")}
             skip = bool(vs & set(ob)) and bool(vs & set(ib))
+    # ... and that is the only reason an opponent is skipped: every `continue` / early exit of the inner loop body
+    # (outside the per-argument loop) is guarded by a single equality between the outer and the inner candidate
+    zip_nodes = [x for l in F.for_loops(inner[2]) if l[2] is not None for x in F.walk(l[3])]
+    other = []
+    for n in F.exprs(inner[2], "If"):
+        if any(n is z for z in zip_nodes):
+            continue
+        if not any(x.get("k") == "Continue" for x in F.walk(n["then"])):
+            continue
+        c = F.strip(n["cond"])
+        is_eq = (c.get("k") == "Binary" and c["op"] == "Eq") or (c.get("k") == "Call" and short(c.get("fn") or "") == "eq")
+        if not is_eq:
+            other.append(n)
+    chk.ob("C16.sym/skip-only-self", skip and not other, "an opponent is skipped only when it is the candidate itself" if skip and not other else
+           "the tournament skips opponents for another reason than being the candidate itself (%s): a candidate that only loses to a skipped opponent survives, so the outcome depends on declaration order"
+           % ("condition is not a single `candidate == against`" if other else "no self test"), where(fft, other[0]) if other else where(fft))
     chk.ob("C16.sym/skip-self", skip, "a candidate is not compared with itself" if skip else "the `candidate == against -> continue` test is gone", where(fft))
     # vector tie-break: best_order = min over all, filter == best
     fold = False
@@ -270,8 +286,10 @@ def plain_iter(it):
     it = F.strip(it)
     if it.get("k") == "Var":
         return True
-    if it.get("k") == "Call" and short(it.get("fn") or "") in ("iter", "into_iter") and it.get("args"):
-        return F.strip(it["args"][0]).get("k") == "Var"
+    if it.get("k") == "Call" and short(it.get("fn") or "") == "enumerate" and it.get("args"):
+        return plain_iter(it["args"][0])       # enumerate() numbers the elements, it drops none
+    if it.get("k") == "Call" and short(it.get("fn") or "") in ("iter", "into_iter", "deref", "as_slice") and it.get("args"):
+        return plain_iter(it["args"][0])
     return False
 
 
